@@ -104,7 +104,7 @@ def run_property(prop, tier, seed, replay_file=None):
                 all_new.append((v, p))
             all_listed += listed
             continue
-        if name.split(":")[0] in ("ids", "burst", "burstc", "dup", "withline"):
+        if name.split(":")[0] in ("ids", "burst", "burstc", "dup", "withline", "overlap"):
             # whole-run observations of the real library, each decided by one clause of Abs (TraceAbs):
             #   ids:N     C02 "ids are distinct for distinct spans": ids are a random per-thread prefix plus a counter,
             #             so only many threads can show a clash (Ids)
@@ -116,7 +116,8 @@ def run_property(prop, tier, seed, replay_file=None):
             trace = os.path.join(d, "trace.ndjson")
             #   dup:1     C06 with attachments that are equal to each other (Dup)
             #   withline:1  C07 / C06: with_property on a local span under a scope opened later (known finding D20), in a child process
-            cmd = [E.HBIN, "withline", "--out", trace] if mode == "withline" else [E.HBIN, "dup", "--out", trace] if mode == "dup" else [E.HBIN, "ids", "--threads", str(n), "--out", trace] if mode == "ids" else \
+            #   overlap:1   C01: a flush() that overlaps a cycle which has already drained the queues (events validated one by one)
+            cmd = [E.HBIN, "overlap", "--out", trace] if mode == "overlap" else [E.HBIN, "withline", "--out", trace] if mode == "withline" else [E.HBIN, "dup", "--out", trace] if mode == "dup" else [E.HBIN, "ids", "--threads", str(n), "--out", trace] if mode == "ids" else \
                   [E.HBIN, "burst", "--spans", str(n), "--out", trace] + (["--cancelable", "--cross"] if mode == "burstc" else [])
             r = subprocess.run(cmd, stdout=subprocess.PIPE, stderr=subprocess.PIPE, text=True, timeout=600)
             if r.returncode != 0:
@@ -129,6 +130,7 @@ def run_property(prop, tier, seed, replay_file=None):
             E.log("%s: %s validated" % (name, ("the ids given to 3 spans on each of %d short-lived threads (non-zero, pairwise distinct)" % n) if mode == "ids"
                                             else "equal properties and events attached several times to one span" if mode == "dup"
                                             else "with_property on a local span that is not the innermost handle (child process)" if mode == "withline"
+                                            else "a flush() overlapping a cycle that is held inside report()" if mode == "overlap"
                                             else ("a backlog of %d finished spans on one queue, then one flush()" % n)))
             for v in new:
                 vdir = os.path.join(E.OUT, prop)
